@@ -539,7 +539,15 @@ func (tdsChan *Channel) QueuePackage(ctx context.Context, pkg Package) error {
 	}
 	tdsChan.lastPkgTx = pkg
 
-	return tdsChan.sendPackets(ctx, true)
+	if err := tdsChan.sendPackets(ctx, true); err != nil {
+		// The message cannot be completed. Drop what is still queued
+		// of it - as SendRemainingPackets does -, otherwise it would
+		// be sent as the beginning of the next message.
+		tdsChan.reset()
+		return err
+	}
+
+	return nil
 }
 
 // Send all remaining Packets in queue to the server.
